@@ -615,8 +615,8 @@ def gen_program(rng, big):
             for _ in range(rng.choice([0, 1, 1, 2, 2, 3])):
                 if names_known and rng.random() < (0.7 if not is_mixin else 0.2):
                     aname = rng.choice(names_known)
-                elif is_mixin and rng.random() < 0.7:
-                    aname = rng.choice(PNAMES[:7])
+                elif is_mixin:
+                    aname = rng.choice(PNAMES[:7])       # a mixin never declares a parameter under a command's name
                 else:
                     aname = rng.choice(PNAMES[:5] + CNAMES[:1])
                 if any(a == aname for a, _ in decls):
@@ -626,6 +626,11 @@ def gen_program(rng, big):
                     d = {'k': 'cmd', 'desc': rng.choice(DESCS), 'props': {}, 'inherit': True}
                 else:
                     d = gen_decl(rng, prev, is_mixin)
+                    if d['k'] == 'cmd' and aname not in CNAMES and prev != 'cmd':
+                        # parameter names and command names are kept apart (a Parameter merged with a Command of
+                        # the same name from another base is outside the model)
+                        dt = gen_dt(rng)
+                        d = {'k': 'param', 'desc': rng.choice(DESCS), 'dt': dt, 'props': gen_pprops(rng, dt['t']), 'inherit': True}
                 decls.append([aname, d])
                 est[aname] = decl_kind(d, prev)
             op = {'op': 'class', 'name': name, 'bases': bases, 'mixin': is_mixin, 'decls': decls}
@@ -873,9 +878,12 @@ def evaluate(ctx, program, init, steps, second, answers, laters):
             if d is not None:
                 dis = {'case': program, 'model': d['model'], 'impl': d['impl'], 'at': where, 'owner': d['owner']}
                 break
-            if m['part'] != part:
-                dis = {'case': program, 'model': [g for g in m['part'] if g not in part],
-                       'impl': [g for g in part if g not in m['part']], 'at': where, 'owner': 'sharing partition'}
+            # mutable property values (lists) are not objects of the model: they are compared only through the judge's
+            # dumps; a list shared with an *instance* across owners is reported as a violation below
+            objpart = [g2 for g2 in ([x for x in g if '/prop/' not in x] for g in part) if len(g2) > 1]
+            if m['part'] != sorted(objpart):
+                dis = {'case': program, 'model': [g for g in m['part'] if g not in objpart],
+                       'impl': [g for g in objpart if g not in m['part']], 'at': where, 'owner': 'sharing partition'}
                 break
     if jrun['bad'] is not None:
         i, owners = jrun['bad']
@@ -887,6 +895,13 @@ def evaluate(ctx, program, init, steps, second, answers, laters):
         viols.append({'sig': f'C09:isolation:{what}-changes-{"+".join(okind)}',
                       'what': f'operation {i} ({json.dumps(op)[:300]}) changed the dump of {owners}', 'case': program,
                       'detail': {'step': i, 'owners': owners}})
+    for st in steps:
+        for g in st['part']:
+            owners = {x.rsplit(':', 1)[0] for x in g if '/prop/' in x}
+            if len(owners) > 1 and any(o.startswith('inst:') for o in owners):
+                viols.append({'sig': 'C09:mutable-property-value-shared-with-instance', 'what': f'a mutable property value object is '
+                              f'shared between owners: {g}', 'case': program})
+                break
     if not jval['ok']:
         viols.append({'sig': 'C09:validation-not-a-function-of-datainfo', 'what': 'two datatype objects with equal datainfo '
                       'give different outcomes on the boundary catalogue', 'case': program})
@@ -942,7 +957,7 @@ def run(ctx):
         for fn in sorted(os.listdir(cdir)):
             with open(os.path.join(cdir, fn)) as f:
                 cases.append(('corpus', json.load(f)['case']))
-    n = ctx.budget(300, 6000)
+    n = ctx.budget(300, 1500)
     shrunk = 0
     batch_reqs, batch_meta = [], []
 
